@@ -80,6 +80,17 @@ void h_conv(void) {
   VF_R128[0] = res[0];
 #endif
 
+  /* C18: the source operands of every conversion / addition are bit-for-bit what they were (also a lazily reduced representative is a modification) */
+#if CONV == 0 || CONV == 1 || CONV == 6
+  VF_ASSERT(x[0] == x0, "q120 conversion leaves its int64 source untouched");
+#elif CONV == 2 || CONV == 5
+  for (unsigned k = 0; k < 4; ++k) VF_ASSERT(b[k] == VF_X[k], "q120 conversion leaves its q120b source untouched");
+#elif CONV == 3
+  for (unsigned k = 0; k < 4; ++k) VF_ASSERT(a[k] == VF_X[k] && b[k] == VF_X[4 + k], "q120_add_bbb leaves both q120b sources untouched");
+#elif CONV == 4
+  for (unsigned k = 0; k < 4; ++k) VF_ASSERT(a[2 * k] == (uint32_t)VF_X[k] && b[2 * k] == (uint32_t)VF_X[4 + k], "q120_add_ccc leaves both q120c sources untouched");
+#endif
+
 #ifndef __CPROVER__
   /* native oracle (exact 128-bit arithmetic) */
 #if CONV == 0
